@@ -190,7 +190,8 @@ func Harness_C08_SymbolicRanks() {
 	var tab []c08Op
 	for i, tk := range tks {
 		p := verifInt("rank" + itoaV(i))
-		verifAssume(1 <= p && p <= 6)
+		verifAssume(1 <= p)
+		verifAssume(p <= 6)
 		binOpMap[tk] = BinOpInfo{p, gos[i], false}
 		tab = append(tab, c08Op{spells[i], p, gos[i], false})
 	}
